@@ -56,11 +56,11 @@ PROPS = {
                      '&self operations cannot change the abstract table value in Verus; that they do not write is C19 (Kani, bounded)'],
         design='DESIGN.md §5 C05'),
     'C06': dict(
-        title='drop / hand back exactly once', level='model_checking', templates=['l2', 'iter'],
+        title='drop / hand back exactly once', level='model_checking', templates=['l2', 'iter', 'l1'],
         k_quick=['q_ledger_remove', 'q_ledger_retain', 'q_ledger_clear_drop', 'q_ledger_clear_mixed', 'q_ledger_realloc', 'q_ledger_clone',
-                 'q_ledger_drain', 'q_ledger_into_iter', 'q_ledger_owning_mixed'],
+                 'q_ledger_drain', 'q_ledger_into_iter', 'q_ledger_owning_mixed', 'q_forget_drain'],
         k_thorough=[],
-        assumptions=[A_DOUBLE, A_HB, A_UNSAFE, A_KBOUND,
+        assumptions=[A_HEAP, A_DOUBLE, A_HB, A_UNSAFE, A_KBOUND,
                      'composite L2 operations: Verus shows every departing entry passes through remove_metadata and is then returned or dropped by safe code (clauses tagged C06); exactly-once for safe code is rustc ownership'],
         design='DESIGN.md §5 C06'),
     'C07': dict(
@@ -110,26 +110,26 @@ PROPS = {
                      'whole-history growth bound is the inductive consequence of the per-call clause cap_after_growth < max(4*len, 8)'],
         design='DESIGN.md §5 C13'),
     'C14': dict(
-        title='clone', level='proof', templates=['l2'],
+        title='clone', level='proof', templates=['l2', 'l1'],
         level_extra='Scope of the proof for C14: the copy itself (length, order, recorded sizes, current_size, max_size, capacity, every key/value a clone of its counterpart).  Independence of source and clone under later operations, Entry::clone, and the Eq-equality of cloned keys are decided only boundedly (Kani).',
         k_quick=['q_op_clone', 'q_op_clone_small', 'q_op_clone_diverge_remove', 'q_op_clone_diverge_realloc', 'q_ledger_clone'],
         k_thorough=['t_op_clone', 't_op_clone_diverge_touch', 't_op_clone_diverge_clear', 't_op_clone_diverge_retain'],
-        assumptions=[A_SUB, A_NODE, A_CLONE, A_DOUBLE, A_HB, A_UNSAFE, A_KBOUND,
+        assumptions=[A_HEAP, A_SUB, A_NODE, A_CLONE, A_DOUBLE, A_HB, A_UNSAFE, A_KBOUND,
                      'proved (Verus, unbounded, over A-SUB/A-NODE): same length, order, per-entry sizes, current_size, max_size, capacity >= source, every key/value a clone of the one at the same position, source untouched by type (&self); independence of later operations and Entry::clone itself: bounded Kani harnesses only'],
         design='DESIGN.md §5 C14'),
     'C15': dict(
-        title='retain', level='proof', templates=['l2'],
+        title='retain', level='proof', templates=['l2', 'l1'],
         level_extra='Scope of the proof for C15: the state effect (exactly the rejected entries are gone, survivors keep their order, accounting).  The invocation sequence of the predicate (exactly once per entry, LRU->MRU) and the drops of rejected pairs are decided only boundedly (Kani).',
         k_quick=['q_op_retain', 'q_op_retain_small', 'q_ledger_retain'],
         k_thorough=['t_op_retain'],
-        assumptions=[A_SUB, A_NODE, A_EQ, A_DOUBLE, A_HB, A_UNSAFE, A_KBOUND,
+        assumptions=[A_HEAP, A_SUB, A_NODE, A_EQ, A_DOUBLE, A_HB, A_UNSAFE, A_KBOUND,
                      'proved (Verus, unbounded, over A-SUB/A-NODE): there is one predicate result per original entry, taken on that entry\'s own key and value, such that the final list is exactly the accepted entries in their original order; acct (current_size = sum of recorded sizes, distinct keys) and exactness are preserved.  That the predicate is invoked exactly once per entry and in LRU->MRU order is visible in the verified loop structure but is not a stated obligation (Verus has no call log for FnMut): bounded Kani harnesses op_retain / ledger_retain decide it'],
         design='DESIGN.md §5 C15'),
     'C16': dict(
-        title='panic safety (call-back-point invariant)', level='model_checking', templates=['l2'],
+        title='panic safety (call-back-point invariant)', level='model_checking', templates=['l2', 'l1'],
         k_quick=['q_cb_try_reallocate', 'q_cb_lookup_remove', 'q_cb_remove_ends', 'q_cb_clone', 'q_cb_retain', 'q_cb_insert_untracked'],
         k_thorough=[],
-        assumptions=[A_DOUBLE, A_HB, A_UNSAFE, A_KBOUND,
+        assumptions=[A_HEAP, A_DOUBLE, A_HB, A_UNSAFE, A_KBOUND,
                      'neither tool executes unwinding: the property is decided as "psafe holds at every call-back point"; the unwind path itself (destructors of locals) is argued by hand',
                      'call-backs of the composite L2 operations (insert, try_insert, mutate) precede any modification: shown by the order of calls in the Verus-verified bodies, not by a separate obligation'],
         design='DESIGN.md §5 C16'),
